@@ -101,10 +101,41 @@ def reductions(prog, fam):
 ARENA = "ontology::termarena::Arena"
 
 
+
+def reaches_membership_test(prog, body):
+    """some function reachable from `body` (crate calls, closures, and the trait impls of crate types that are constructed on the way, e.g. the
+    `Iterator::next` of a private iterator struct) tests an id for membership in a group (`HpoGroup::contains` / `binary_search`) - the sign that a
+    membership predicate exists, in an idiom the membership rules do not read"""
+    seen = set(prog.reachable_bodies([body.id]))
+    work = list(seen)
+    while work:
+        x = prog.bodies.get(work.pop())
+        if x is None:
+            continue
+        for fb in prog.family(x):
+            for _, t in fb.calls():
+                tg = prog.bodies.get(t.callee.res or "")
+                adt = (tg.impl_self or {}).get("adt") if tg is not None and tg.kind == "AssocFn" else None
+                if adt:
+                    for y in prog.production():
+                        if y.kind == "AssocFn" and y.impl_trait and (y.impl_self or {}).get("adt") == adt and y.id not in seen:
+                            new = prog.reachable_bodies([y.id]) - seen
+                            seen |= new | {y.id}
+                            work.extend(new | {y.id})
+    for bid in seen:
+        x = prog.bodies.get(bid)
+        if x is None or x.test:
+            continue
+        for _, t in x.calls():
+            if (t.callee.res or "").endswith("HpoGroup::contains") or (t.callee.method == "binary_search" and "HpoTermId" in (t.callee.def_args or "")):
+                return x
+    return None
+
+
 def arena_placeholder_skips(prog, name, _depth=0):
     """how many leading slots of `Arena.terms` the accessor `Arena::<name>` leaves out: RangeFrom starts + skip(n) constants,
     plus those of another Arena accessor it is built on.  0 = iterates `terms` whole; None = shape not recognised."""
-    b = prog.body("%s::%s" % (ARENA, name))
+    b = name if not isinstance(name, str) else prog.body("%s::%s" % (ARENA, name))
     if b is None or _depth > 3:
         return None
     total = 0
@@ -153,6 +184,44 @@ def check_exact_conversion(ck, rule, prog, body_id, what):
         return
     bad = _inexact_steps(prog, b, 0)
     ck.ob(rule, "exact-conversion/" + (b.short if b.impl_trait else b.short.rsplit("::", 1)[-1]), not bad, "%s %s" % (b.short, ("converts %s exactly or fails" % what) if not bad else ("is not an exact-or-fail conversion of %s: it %s - large values are silently changed instead of being rejected" % (what, "; ".join(bad[:2])))), where=b.where())
+
+
+def conversion_min_bits(prog, b, depth=0, _seen=None):
+    """narrowest integer type a value passes through inside a conversion helper (crate helpers on the way included): the helper fails for every
+    value that does not fit that type.  None when no integer conversion is recognised."""
+    _seen = _seen or set()
+    if b.id in _seen or depth > 3:
+        return None
+    _seen = _seen | {b.id}
+    best = None
+    for fb in prog.family(b):
+        for _, t in fb.calls():
+            da = t.callee.def_args or ""
+            tg = prog.bodies.get(t.callee.res or "")
+            if tg is not None and tg.kind in ("Fn", "AssocFn") and tg.id != b.id:
+                inner = conversion_min_bits(prog, tg, depth + 1, _seen)
+                if inner is not None:
+                    best = inner if best is None else min(best, inner)
+                continue
+            if t.callee.method in ("try_into", "try_from", "into", "from"):
+                for ty in re.findall(r"\b(u8|u16|u32|u64|usize|i8|i16|i32|i64|isize)\b", da):
+                    bits = INT_BITS[ty] if ty in INT_BITS else 64
+                    best = bits if best is None else min(best, bits)
+    return best
+
+
+def check_conversion_range(ck, rule, prog, body_id, need_bits, why):
+    """the conversion helper accepts at least every value of `need_bits` bits: a detour through a narrower integer keeps it `exact or fail`
+    but makes it FAIL (panic / error) on values the callers legitimately pass"""
+    b = prog.body(body_id) if isinstance(body_id, str) else body_id
+    if b is None:
+        return
+    mb = conversion_min_bits(prog, b)
+    key = "conversion-range/" + (b.short if b.impl_trait else b.short.rsplit("::", 1)[-1])
+    if mb is None:
+        ck.undecided(rule, key, "%s: no integer conversion recognised" % b.short, where=b.where())
+    else:
+        ck.ob(rule, key, mb >= need_bits, "%s converts through an integer of %d bits%s" % (b.short, mb, " (at least the %d bits reviewed: %s)" % (need_bits, why) if mb >= need_bits else ": values above %d now make it fail, although %s" % (2 ** mb - 1, why)), where=b.where())
 
 
 def _inexact_steps(prog, b, depth):
